@@ -515,3 +515,116 @@ func tagChainCases(prefix string) []cases.ScanCase {
 	}
 	return out
 }
+
+// octopusCases: a merge with n parents (n around the powers of two) of which exactly one is deeper than all the
+// others, put first, in the middle or last; the longest chain runs through that edge only.
+func octopusCases(prefix string) []cases.ScanCase {
+	var out []cases.ScanCase
+	for _, n := range []int{3, 15, 16, 17, 18, 33, 65, 130} {
+		for _, pos := range []string{"first", "middle", "last"} {
+			var g model.Graph
+			names := map[int][]byte{1: []byte("f")}
+			g.Blobs = []int{3}
+			g.Trees = [][]model.Entry{{{K: "file", To: 1, N: 1, NL: 1}}}
+			g.Commits = []model.Commit{{Tree: 1, Parents: []int{}}} // c1: root
+			for i := 0; i < 4; i++ {                                // c2..c5: the deep chain
+				g.Commits = append(g.Commits, model.Commit{Tree: 1, Parents: []int{len(g.Commits)}})
+			}
+			deep := len(g.Commits)
+			var shallow []int
+			for i := 0; i < n-1; i++ { // n-1 children of the root
+				g.Commits = append(g.Commits, model.Commit{Tree: 1, Parents: []int{1}})
+				shallow = append(shallow, len(g.Commits))
+			}
+			var parents []int
+			switch pos {
+			case "first":
+				parents = append([]int{deep}, shallow...)
+			case "last":
+				parents = append(append([]int{}, shallow...), deep)
+			default:
+				h := len(shallow) / 2
+				parents = append(append(append([]int{}, shallow[:h]...), deep), shallow[h:]...)
+			}
+			g.Commits = append(g.Commits, model.Commit{Tree: 1, Parents: parents})
+			g.Normalize()
+			out = append(out, cases.ScanCase{ID: fmt.Sprintf("%s-octopus%d-%s", prefix, n, pos), G: g, Names: names, Style: "full", Family: "octopus",
+				Roots: []cases.RootSpec{{O: model.Oid{K: "c", I: len(g.Commits)}, Walk: true, IsRef: true, Name: "refs/heads/octopus", Kind: "plain"}}})
+		}
+	}
+	return out
+}
+
+// rootKindCases: references (and ROOT arguments) that point directly at objects of every kind -- a blob no tree
+// contains, a blob that is also in a tree, a tree nothing else reaches, the root tree of a commit, annotated
+// tags of a blob / tree / commit -- one feature per repository and all of them together, walked and unwalked.
+func rootKindCases(prefix string) []cases.ScanCase {
+	build := func() (model.Graph, map[int][]byte) {
+		var g model.Graph
+		names := map[int][]byte{1: []byte("in-tree.txt"), 2: []byte("dir"), 3: []byte("other")}
+		g.Blobs = []int{11, 222, 33, 4}                                                                  // b1 in trees; b2 loose (refs only); b3 only in the loose tree; b4 only under a tag
+		g.Trees = [][]model.Entry{{{K: "file", To: 1, N: 1, NL: 11}}, {{K: "file", To: 3, N: 3, NL: 5}}} // t1 root of c1; t2 loose
+		g.Commits = []model.Commit{{Tree: 1, Parents: []int{}}}
+		g.Tags = []model.Tag{{TK: "b", To: 4, Size: 140}, {TK: "t", To: 2, Size: 141}, {TK: "c", To: 1, Size: 142}}
+		g.Normalize()
+		return g, names
+	}
+	ref := func(k string, i int, name string) cases.RootSpec {
+		return cases.RootSpec{O: model.Oid{K: k, I: i}, Walk: true, IsRef: true, Name: name, Kind: "plain"}
+	}
+	main := ref("c", 1, "refs/heads/main")
+	features := map[string][]cases.RootSpec{
+		"loose-blob":        {ref("b", 2, "refs/tags/pubkey")},
+		"intree-blob":       {ref("b", 1, "refs/tags/file")},
+		"loose-tree":        {ref("t", 2, "refs/misc/tree")},
+		"root-tree":         {ref("t", 1, "refs/misc/roottree")},
+		"tag-of-blob":       {ref("g", 1, "refs/tags/tb")},
+		"tag-of-tree":       {ref("g", 2, "refs/tags/tt")},
+		"tag-of-commit":     {ref("g", 3, "refs/tags/v1")},
+		"two-refs-one-blob": {ref("b", 2, "refs/tags/k1"), ref("b", 2, "refs/tags/k2")},
+	}
+	var all []cases.RootSpec
+	var keys []string
+	for k := range features {
+		keys = append(keys, k)
+	}
+	sort.Strings(keys)
+	var out []cases.ScanCase
+	mk := func(id string, roots []cases.RootSpec, args []string, style string) {
+		g, names := build()
+		rs := append([]cases.RootSpec{}, roots...)
+		sort.SliceStable(rs, func(i, j int) bool {
+			if rs[i].IsRef != rs[j].IsRef {
+				return rs[i].IsRef
+			}
+			if !rs[i].IsRef {
+				return false
+			}
+			return rs[i].Name < rs[j].Name
+		})
+		out = append(out, cases.ScanCase{ID: prefix + "-rootkind-" + id, G: g, Names: names, Style: style, Family: "rootkind", Roots: rs, Args: args})
+	}
+	for _, k := range keys {
+		mk(k, append([]cases.RootSpec{main}, features[k]...), nil, "full")
+		all = append(all, features[k]...)
+	}
+	mk("all", append([]cases.RootSpec{main}, all...), nil, "full")
+	mk("all-hash", append([]cases.RootSpec{main}, all...), nil, "hash")
+	// only the branches are walked: every other reference is counted but not traversed
+	var unw []cases.RootSpec
+	for _, r := range all {
+		r.Walk = false
+		unw = append(unw, r)
+	}
+	mk("all-branches-only", append([]cases.RootSpec{main}, unw...), []string{"--branches"}, "full")
+	// the same objects as ROOT arguments (no reference walked)
+	m2 := main
+	m2.Walk = false
+	arg := func(k string, i int) cases.RootSpec {
+		e := fmt.Sprintf("{hex:%s%d}", k, i)
+		return cases.RootSpec{O: model.Oid{K: k, I: i}, Walk: true, IsRef: false, Name: e, Kind: rootKindOf(e)}
+	}
+	rootsArgs := []cases.RootSpec{m2, arg("b", 2), arg("t", 2), arg("g", 1), arg("b", 2)}
+	mk("as-arguments", rootsArgs, []string{"{hex:b2}", "{hex:t2}", "{hex:g1}", "{hex:b2}"}, "full")
+	return out
+}
